@@ -219,7 +219,7 @@ def oracle_c05(prog, iobj):
 # model input computed INSIDE Coq from the texts (group bridge: model parser -> coq/model/AstToCore.v through the
 # generated accessor table -> Pipeline.v include resolution), with the harness observer coreast.rs (real parse
 # tree through the real typed accessors) as a required-equal cross-check on every workspace.
-BRIDGE_TRANSLATORS = ["t_tokens", "t_lextables", "t_unicode", "t_lexer", "t_grammar", "t_ast"]
+BRIDGE_TRANSLATORS = ["t_tokens", "t_lextables", "t_unicode", "t_lexer", "t_grammar", "t_grammarcert", "t_ast"]
 _bridge = {}
 
 
